@@ -250,7 +250,7 @@ class _First:
     request_info = "RI0"
 
 
-@unit("C17", "redirect.entry", functions=[f"{MOD}:ClientSession._request"], timeout_ms=20000, max_paths=60000)
+@unit("C17", "redirect.entry", functions=[f"{MOD}:ClientSession._request"], timeout_ms=20000, max_paths=60000, also=("C18",))
 def redirect_entry(u: U):
     """ClientSession._request from its entry to the head of the redirect loop, for every combination of arguments:
     the invariant I17 holds initially (the path is ended once it has been checked)"""
@@ -398,9 +398,12 @@ def _run(u: U, entry_only: bool, canary: bool = False):
             pass
 
         def start(self):
+            G["total_timer_started"] = True
             return None
 
         def timer(self):
+            G["total_timer_has_a_listener"] = True
+
             class _T:
                 def __enter__(s):
                     return s
@@ -421,11 +424,37 @@ def _run(u: U, entry_only: bool, canary: bool = False):
             # (LookupError is suppressed by the code; both outcomes leave proxy_ unset - one is explored)
             return SAwait(result=lambda: (None, None), name="env_proxy")
 
+    class _TraceCfg:
+        def trace_config_ctx(self, trace_request_ctx=None):
+            return "CTX"
+
+    class _Trace:
+        """a tracing hook of the caller: user code that may take any time"""
+
+        def __init__(self, session, cfg, ctx):
+            pass
+
+        def send_request_start(self, *a):
+            def suspended():
+                u.check("C18.total.timer_listens_from_the_start", Implies(bool(G.get("total_timer_started")),
+                                                                       bool(G.get("total_timer_has_a_listener"))),
+                        "once the total-timeout clock is running somebody listens to it: while _request awaits user code "
+                        "(an on_request_start trace callback) the timer context is already registered, so a deadline "
+                        "that passes meanwhile is not lost", known=[("F18c", True)])
+
+            return SAwait(name="trace.request_start", on_suspend=suspended)
+
+        def __getattr__(self, name):
+            if name.startswith("send_"):
+                return lambda *a, **k: SAwait(name="trace." + name)
+            raise AttributeError(name)
+
     s = u.obj("ClientSession",
               {"closed": False, "_default_ssl": True, "_json_serialize_bytes": None, "_version": "1.1",
                "_connector": _Connector(), "_skip_auto_headers": None, "_default_proxy": None,
                "_timeout": _TimeoutCfg(), "_loop": _Loop(), "_read_bufsize": 1, "_auto_decompress": True,
-               "_max_line_size": 1, "_max_field_size": 1, "_max_headers": 1, "_trace_configs": [],
+               "_max_line_size": 1, "_max_field_size": 1, "_max_headers": 1,
+               "_trace_configs": [_TraceCfg()] if entry_only and u.choose(2, "tracing_configured") else [],
                "_retry_connection": u.bool("retry_connection"), "_trust_env": trust_env, "trust_env": trust_env,
                "_cookie_jar": _Jar(), "_request_class": request_class, "_response_class": None, "_middlewares": (),
                "_requote_redirect_url": True, "_raise_for_status": False},
@@ -433,7 +462,7 @@ def _run(u: U, entry_only: bool, canary: bool = False):
                "_get_netrc_auth": lambda self, host: None}, shared=False)
     f = u.load(MOD, "ClientSession._request",
                globals={"strip_auth_from_url": strip_auth, "_connect_and_send_request": sender, "URL": URLctor,
-                        "TimeoutHandle": _TH, "CookieJar": _TmpJar, "asyncio": _asyncio,
+                        "TimeoutHandle": _TH, "CookieJar": _TmpJar, "asyncio": _asyncio, "Trace": _Trace,
                         "get_env_proxy_for_url": None, "CIMultiDict": dict})
     info = u.fn_infos[FN]
     wl = [l["index"] for l in info.loops if l["kind"] == "while"]
